@@ -120,6 +120,41 @@ def c01_f1(tier, tag="el"):
     return progs
 
 
+def in_context(p, how):
+    """the program's items placed inside a context that the machine models: the body of a macro, a slot filler, a named
+    block of a translated element, a tal:on-error element, a repeated element, an element of the template namespace.
+    Features are tested in plain surroundings mostly; this moves a whole program into the surroundings"""
+    items = list(p["items"])
+    libs = None
+    main = None
+    cfg = dict(p.get("cfg") or {})
+    if how == "macro":
+        lib = [Open(dm="ctx", name="div", sattr=[])] + items + [CLOSE]
+        mainitems = [Text("B"), Open(um=("ctx", 1, False), name="section", sattr=[]), Text("ign"), CLOSE, Text("A")]
+        main = len(mainitems)
+        libs = [{"from": main + 1, "to": main + len(lib)}]
+        items = mainitems + lib
+    elif how == "filler":
+        lib = [Open(dm="ctx", name="div", sattr=[]), Text("M["), Open(ds="s", name="span", sattr=[]), Text("dflt"), CLOSE, Text("]"), CLOSE]
+        mainitems = [Text("B"), Open(um=("ctx", 1, False), name="section", sattr=[]), Text("ign"), Open(fs="s", name="b", sattr=[])] + items + \
+            [CLOSE, CLOSE, Text("A")]
+        main = len(mainitems)
+        libs = [{"from": main + 1, "to": main + len(lib)}]
+        items = mainitems + lib
+    elif how == "name":
+        items = [Text("B"), Open(name="p", tr="", sattr=[]), Text("Dear "), Open(name="b", nm="who", sattr=[])] + items + [CLOSE, Text(" bye"), CLOSE, Text("A")]
+        cfg["_translate_variant"] = "rewrite"
+    elif how == "onerror":
+        items = [Text("B"), Open(name="div", oe=(False, const(S("c"))), sattr=[])] + items + [CLOSE, Text("A")]
+    elif how == "repeat":
+        items = [Text("B\n "), Open(name="div", rep=(False, "z", const(SEQ([I(0), I(7)]))), sattr=[])] + items + [CLOSE, Text("A")]
+    elif how == "ns":
+        items = [Text("B"), Open(tag="ns")] + items + [CLOSE, Text("A")]
+    q = program(items, p["dom"], init=p.get("init"), cfg=cfg, fam=p["fam"] + " @" + how, bools=p.get("bools", ()), main=main, libs=libs or ())
+    return q
+
+
+CONTEXTS = ["macro", "filler", "name", "onerror", "repeat", "ns"]
 OUTER = ["define", "cond", "repeat", "omit", "attrs", "content", "switch"]
 
 
